@@ -6,6 +6,7 @@ package c11
 import (
 	"fmt"
 	"math"
+	"math/big"
 	"runtime/debug"
 	"testing"
 	"time"
@@ -35,7 +36,7 @@ var declared = func() map[string]bool {
 }()
 
 var hostileKeys = []string{"", "0", "1", "2", "3", "4", "6", "7", "-1", "+3", "007", "1e3", "999", "1000", "1001", "12", "13",
-	"18446744073709551616", "9223372036854775807", "x", "a", "b", "c", "d", "e", " 1", "1 ", "0x1", "٣"}
+	"18446744073709551616", "9223372036854775807", "9223372036854775808", "18446744073709551615", "-9223372036854775808", "x", "a", "b", "c", "d", "e", " 1", "1 ", "0x1", "٣"}
 var hostileValues = []float64{0, 1, -1, 0.5, 255, 256, 65535, 65536, -129, 128, 2147483648, -2147483649, 4294967296, 1 << 53, 1 << 63, -(1 << 63), 1e300, -1e300,
 	math.NaN(), math.Inf(1), math.Inf(-1), math.MaxFloat64, math.SmallestNonzeroFloat64}
 
@@ -47,9 +48,21 @@ func genPoint(t *rapid.T, types []string) data.Point {
 	default:
 		p.Type = rapid.SampledFrom(types).Draw(t, "type")
 	}
-	if rapid.IntRange(0, 3).Draw(t, "keyKind") == 0 {
+	switch kk := rapid.IntRange(0, 7).Draw(t, "keyKind"); {
+	case kk <= 1:
 		p.Key = rapid.StringN(0, 4, 8).Draw(t, "rkey")
-	} else {
+	case kk == 2:
+		// decimal numbers around every power of two up to and beyond 2^64, either sign
+		e := rapid.IntRange(0, 65).Draw(t, "keyPow")
+		n := new(big.Int).Lsh(big.NewInt(1), uint(e))
+		n.Add(n, big.NewInt(int64(rapid.IntRange(-2, 2).Draw(t, "keyOff"))))
+		if rapid.IntRange(0, 3).Draw(t, "keyNeg") == 0 {
+			n.Neg(n)
+		}
+		p.Key = n.String()
+	case kk == 3:
+		p.Key = fmt.Sprint(rapid.Uint64().Draw(t, "keyU64"))
+	default:
 		p.Key = rapid.SampledFrom(hostileKeys).Draw(t, "key")
 	}
 	if rapid.Bool().Draw(t, "hv") {
